@@ -26,10 +26,10 @@ def Range.cmp (x y : Range) : Ordering :=
 
 def Range.offset (x : Range) (n : Nat) : Range := ⟨x.b + n, x.e + n⟩
 
-/-- `Origin`: own range in the output + optional (file id, source range) -/
+/-- `Origin`: own range in the output + optional (path bytes, source range) -/
 structure Origin where
   range : Range
-  src : Option (Nat × Range)
+  src : Option (List Nat × Range)
 deriving Repr, BEq, DecidableEq, Inhabited
 
 abbrev OMap := List (Range × Origin)
@@ -51,24 +51,26 @@ def OMap.get : OMap → Range → Option Origin
     | .eq => some v'
     | .gt => OMap.get rest k
 
-structure PText where
-  len : Nat := 0
+/-- `PreprocessedText`: the output bytes and the origin map -/
+structure POut where
+  text : List Nat := []
   origins : OMap := []
 deriving Repr, Inhabited
 
-/-- `PreprocessedText::push(s, origin)` — only the length of `s` matters for the map -/
-def PText.push (t : PText) (n : Nat) (src : Option (Nat × Range)) : PText :=
-  let r : Range := ⟨t.len, t.len + n⟩
-  { len := t.len + n, origins := t.origins.insert r ⟨r, src⟩ }
+/-- `PreprocessedText::push(s, origin)` -/
+def POut.push (t : POut) (s : List Nat) (src : Option (List Nat × Range)) : POut :=
+  let r : Range := ⟨t.text.length, t.text.length + s.length⟩
+  { text := t.text ++ s, origins := t.origins.insert r ⟨r, src⟩ }
 
 /-- `PreprocessedText::merge(other)`: re-base every entry of `other` (in key order) and insert it -/
-def PText.merge (t : PText) (o : PText) : PText :=
-  { len := t.len + o.len,
+def POut.merge (t : POut) (o : POut) : POut :=
+  let base := t.text.length
+  { text := t.text ++ o.text,
     origins := o.origins.foldl (fun m (kv : Range × Origin) =>
-      m.insert (kv.1.offset t.len) { kv.2 with range := kv.2.range.offset t.len }) t.origins }
+      m.insert (kv.1.offset base) { kv.2 with range := kv.2.range.offset base }) t.origins }
 
 /-- `PreprocessedText::origin(pos)` -/
-def PText.origin (t : PText) (pos : Nat) : Option (Nat × Nat) :=
+def POut.origin (t : POut) (pos : Nat) : Option (List Nat × Nat) :=
   match t.origins.get ⟨pos, pos + 1⟩ with
   | some o =>
     match o.src with
